@@ -8,22 +8,26 @@ mod spec;
 
 mod c03;
 mod c04;
+mod c05;
 mod c06;
 mod c07;
+mod c08;
 mod c12;
 mod c15;
 mod c16;
 
 use ctx::{Ctx, Mode, Tier};
 
-const PROPS: &[&str] = &["C03", "C04", "C06", "C07", "C12", "C15", "C16"];
+const PROPS: &[&str] = &["C03", "C04", "C05", "C06", "C07", "C08", "C12", "C15", "C16"];
 
 fn run_check(ctx: &mut Ctx) {
     match ctx.prop.as_str() {
         "C03" => c03::run(ctx),
         "C04" => c04::run(ctx),
+        "C05" => c05::run(ctx),
         "C06" => c06::run(ctx),
         "C07" => c07::run(ctx),
+        "C08" => c08::run(ctx),
         "C12" => c12::run(ctx),
         "C15" => c15::run(ctx),
         "C16" => c16::run(ctx),
